@@ -40,57 +40,59 @@ def sh(cmd, **kw):
     return subprocess.run(cmd, shell=True, capture_output=True, text=True, **kw)
 
 
-def confirm(d):
-    w = f"/tmp/wtc_{os.getpid()}"
+def process(args):
+    """one seed, entirely inside its own scratch worktree of /repo HEAD (never /repo itself):
+    confirm, then run the checks against the patched worktree through VERIF_REPO"""
+    d, prop, sid = args
+    w = f"/tmp/wtc_{sid}"
     sh(f"git -C /repo worktree remove --force {w}")
+    shutil.rmtree(w, ignore_errors=True)
     if sh(f"git -C /repo worktree add --detach {w}").returncode:
-        return dict(status="machinery: cannot create a scratch worktree")
+        return sid, dict(status="machinery: cannot create a scratch worktree"), {}
     try:
         if sh(f"git apply {d}/patch.diff", cwd=w).returncode:
-            return dict(status="patch does not apply to the current tree")
+            return sid, dict(status="patch does not apply to the current tree"), {}
         suite = sh(f"PYTHONPATH={w} /venv/bin/python -m pytest -q -p no:cacheprovider --timeout=900 --continue-on-collection-errors 2>&1 | tail -1", cwd=w).stdout.strip()
-        p = sh(f"PYTHONPATH={w} timeout 120 /venv/bin/python {d}/demo.py", cwd=w).returncode
-        sh("git checkout -q -- .", cwd=w)
-        q = sh(f"PYTHONPATH={w} timeout 120 /venv/bin/python {d}/demo.py", cwd=w).returncode
+        p = sh(f"PYTHONPATH={w} timeout 180 /venv/bin/python {d}/demo.py", cwd=w).returncode
+        sh("git stash -q", cwd=w)
+        q = sh(f"PYTHONPATH={w} timeout 180 /venv/bin/python {d}/demo.py", cwd=w).returncode
+        sh("git stash pop -q", cwd=w)
         ok = "171 passed" in suite and "failed" not in suite and p != 0 and q == 0
-        return dict(status="confirmed" if ok else "not confirmed", suite=suite, demo_rc_with_patch=p, demo_rc_without_patch=q,
-                    commands=["git apply patch.diff", "PYTHONPATH=<worktree> /venv/bin/python -m pytest -q -p no:cacheprovider --timeout=900 --continue-on-collection-errors",
-                              "PYTHONPATH=<worktree> /venv/bin/python demo.py   (with the patch, then after git checkout -- .)"])
+        conf = dict(status="confirmed" if ok else "not confirmed", suite=suite, demo_rc_with_patch=p, demo_rc_without_patch=q,
+                    commands=["git apply patch.diff   (scratch worktree of /repo HEAD)",
+                              "PYTHONPATH=<worktree> /venv/bin/python -m pytest -q -p no:cacheprovider --timeout=900 --continue-on-collection-errors",
+                              "PYTHONPATH=<worktree> /venv/bin/python demo.py   (with the patch, then without)"])
+        checks = {}
+        if ok:
+            for pr in [prop] + EXTRA.get(prop, []):
+                r = sh(f"VERIF_REPO={w} VERIF_OUT_SUFFIX=.seed-{sid} ./check {pr} --tier quick", cwd="/verif")
+                lines = r.stdout.splitlines()
+                viol = [l for l in lines if l.startswith("VIOLATION")]
+                clauses = sorted({m.group(1) for l in lines for m in [re.search(r"clause=(\S+)", l)] if m})
+                checks[pr] = dict(tier="quick", cmd=f"VERIF_REPO=<patched worktree> ./check {pr} --tier quick", rc=r.returncode, violations=len(viol), clauses=clauses[:6],
+                                  machinery=[l[:200] for l in (lines + r.stderr.splitlines()) if l.startswith("MACHINERY")][:2])
+        return sid, conf, checks
     finally:
         sh(f"git -C /repo worktree remove --force {w}")
-
-
-def run_checks(d, props):
-    out = {}
-    if sh("git status --porcelain --untracked-files=no", cwd="/repo").stdout.strip():
-        raise SystemExit("/repo is not clean")
-    if sh(f"git apply {d}/patch.diff", cwd="/repo").returncode:
-        return {p: dict(rc=None, note="patch does not apply") for p in props}
-    try:
-        for p in props:
-            r = sh(f"./check {p} --tier quick", cwd="/verif")
-            lines = r.stdout.splitlines()
-            viol = [l for l in lines if l.startswith("VIOLATION")]
-            clauses = sorted({m.group(1) for l in lines for m in [re.search(r"clause=(\S+)", l)] if m})
-            out[p] = dict(tier="quick", rc=r.returncode, violations=len(viol), clauses=clauses[:6],
-                          machinery=[l[:200] for l in lines if l.startswith("MACHINERY")][:2])
-    finally:
-        sh("git checkout -- .", cwd="/repo")
-    return out
+        shutil.rmtree(w, ignore_errors=True)
 
 
 def main():
+    from concurrent.futures import ThreadPoolExecutor
     inbox, first = sys.argv[1], int(sys.argv[2])
     only = set(sys.argv[3:])
-    summary = []
+    jobs = []
     for prop in sorted(os.listdir(inbox)):
         if not re.fullmatch(r"C\d\d", prop) or (only and prop not in only):
             continue
         for n in (1, 2):
             d = os.path.join(inbox, prop, str(n))
-            if not os.path.exists(os.path.join(d, "patch.diff")):
-                continue
-            sid = f"{prop}-{first + n - 1}"
+            if os.path.exists(os.path.join(d, "patch.diff")) and os.path.exists(os.path.join(d, "demo.py")):
+                jobs.append((d, prop, f"{prop}-{first + n - 1}"))
+    head = sh("git -C /repo rev-parse --short HEAD").stdout.strip()
+    with ThreadPoolExecutor(max_workers=int(os.environ.get("SEED_JOBS", "3"))) as pool:
+        for (d, prop, sid), (sid2, conf, checks) in zip(jobs, pool.map(process, jobs)):
+            n = d.rstrip("/").split("/")[-1]
             meta = {}
             mp = os.path.join(d, "meta.json")
             if os.path.exists(mp):
@@ -99,34 +101,29 @@ def main():
                 except Exception:
                     meta = {}
             if not meta:
-                meta = dict(FALLBACK_META.get(f"{prop}/{n}", {}))
+                meta = dict(FALLBACK_META.get(f"{prop}/{n}", {})) if "_inbox2" not in d else {}
                 meta["note"] = "summary written from the patch (the seeding helper's own meta.json was lost)"
             meta["property"] = prop
             meta["files_changed"] = sorted({l.split(" b/")[1].strip() for l in open(os.path.join(d, "patch.diff")) if l.startswith("diff --git")})
-            conf = confirm(d)
             meta["confirmation"] = conf
-            meta["head"] = sh("git -C /repo rev-parse --short HEAD").stdout.strip()
+            meta["head"] = head
             if conf.get("status") == "confirmed":
-                checks = run_checks(d, [prop] + EXTRA.get(prop, []))
                 meta["checks_run"] = checks
                 meta["caught_by"] = sorted(p for p, r in checks.items() if r.get("rc") == 1)
                 dest = f"/verif/seeded/{sid}"
-                shutil.rmtree(dest, ignore_errors=True)
-                shutil.copytree(d, dest)
-                # helper modules of the demo that live next to the numbered directories
-                for f in os.listdir(os.path.join(inbox, prop)):
-                    fp = os.path.join(inbox, prop, f)
-                    if os.path.isfile(fp) and f.endswith(".py"):
-                        shutil.copy(fp, dest)
-                json.dump(meta, open(os.path.join(dest, "meta.json"), "w"), indent=1)
-                summary.append((sid, "confirmed", ",".join(meta["caught_by"]) or "NOT CAUGHT"))
             else:
                 dest = f"/verif/seeded/_not_confirmed/{sid}"
-                shutil.rmtree(dest, ignore_errors=True)
-                shutil.copytree(d, dest)
-                json.dump(meta, open(os.path.join(dest, "meta.json"), "w"), indent=1)
-                summary.append((sid, conf.get("status"), f"suite={conf.get('suite')} demo {conf.get('demo_rc_with_patch')}/{conf.get('demo_rc_without_patch')}"))
-            print(*summary[-1], flush=True)
+            shutil.rmtree(dest, ignore_errors=True)
+            shutil.copytree(d, dest)
+            for f in os.listdir(os.path.join(inbox, prop)):
+                fp = os.path.join(inbox, prop, f)
+                if os.path.isfile(fp) and f.endswith(".py"):
+                    shutil.copy(fp, dest)
+            json.dump(meta, open(os.path.join(dest, "meta.json"), "w"), indent=1)
+            if conf.get("status") == "confirmed":
+                print(sid, "confirmed", "caught by " + ",".join(meta["caught_by"]) if meta["caught_by"] else "NOT CAUGHT", {k: v["rc"] for k, v in checks.items()}, flush=True)
+            else:
+                print(sid, conf.get("status"), f"suite={conf.get('suite')} demo {conf.get('demo_rc_with_patch')}/{conf.get('demo_rc_without_patch')}", flush=True)
     return 0
 
 
